@@ -37,7 +37,11 @@ func main() {
 	}
 	switch os.Args[1] {
 	case "replay":
-		replay()
+		n := 0
+		if len(os.Args) > 2 {
+			n = atoi(os.Args[2])
+		}
+		replay(n)
 	case "chain":
 		chain(atoi(os.Args[2]), atoi(os.Args[3]))
 	case "c16-run":
